@@ -68,12 +68,18 @@ func (m *Request) Marshal() (b []byte, err error) {
 
 // Unmarshal a byte slice into a Reply.
 func (m *Reply) Unmarshal(b []byte) error {
+	if len(b) < 6 {
+		return fmt.Errorf("kadmin reply is too short: %d bytes", len(b))
+	}
 	m.MessageLength = int(binary.BigEndian.Uint16(b[0:2]))
 	m.Version = int(binary.BigEndian.Uint16(b[2:4]))
 	if m.Version != 1 {
 		return fmt.Errorf("kadmin reply has incorrect protocol version number: %d", m.Version)
 	}
 	m.APREPLength = int(binary.BigEndian.Uint16(b[4:6]))
+	if m.MessageLength > len(b) || 6+m.APREPLength > m.MessageLength {
+		return fmt.Errorf("kadmin reply length fields (message %d, AP_REP %d) do not fit the %d bytes received", m.MessageLength, m.APREPLength, len(b))
+	}
 	if m.APREPLength != 0 {
 		err := m.APREP.Unmarshal(b[6 : 6+m.APREPLength])
 		if err != nil {
@@ -86,12 +92,17 @@ func (m *Reply) Unmarshal(b []byte) error {
 	} else {
 		m.IsKRBError = true
 		m.KRBError.Unmarshal(b[6:m.MessageLength])
-		m.ResultCode, m.Result = parseResponse(m.KRBError.EData)
+		// The e-data of the KRB_ERROR may be absent. The error itself is returned by Decrypt.
+		m.ResultCode, m.Result, _ = parseResponse(m.KRBError.EData)
 	}
 	return nil
 }
 
-func parseResponse(b []byte) (c uint16, s string) {
+func parseResponse(b []byte) (c uint16, s string, err error) {
+	if len(b) < 2 {
+		// 0xFFFF is the result code for a failure for some other reason (RFC 3244 section 2)
+		return 0xFFFF, "", fmt.Errorf("kadmin reply result data is too short to hold a result code: %d bytes", len(b))
+	}
 	c = binary.BigEndian.Uint16(b[0:2])
 	buf := bytes.NewBuffer(b[2:])
 	m := make([]byte, len(b)-2)
@@ -109,6 +120,6 @@ func (m *Reply) Decrypt(key types.EncryptionKey) error {
 	if err != nil {
 		return err
 	}
-	m.ResultCode, m.Result = parseResponse(m.KRBPriv.DecryptedEncPart.UserData)
-	return nil
+	m.ResultCode, m.Result, err = parseResponse(m.KRBPriv.DecryptedEncPart.UserData)
+	return err
 }
